@@ -302,7 +302,7 @@ def main(argv=None):
     assert len(set(names)) == len(names), "duplicate case names"
     # longest first
     cases.sort(key=lambda c: -c.get("opts", {}).get("weight", 1))
-    results = _run_pool(cases, a.jobs, a.v, default_case_timeout=float(os.environ.get("VERIF_CASE_TIMEOUT", "300" if a.tier == "quick" else "1800")))
+    results = _run_pool(cases, a.jobs, a.v, default_case_timeout=float(os.environ.get("VERIF_CASE_TIMEOUT", "900" if a.tier == "quick" else "1800")))
     results.sort(key=lambda r: r["name"])
     known = load_known(pid)
     harness_errors, inconclusive, violations, known_hits = [], [], [], []
